@@ -1351,6 +1351,22 @@ theorem quotients2d_spec (rows : List (List ℝ)) (st : List ℤ) (qs : List ℝ
   mapM_ok_eq_map _ _ rows qs (fun _ _ hq => equilibriumQuotient_ok hq) h
 
 
+/-- the exact (rational) model of the `rref_equil = False` configurations is the configurable model with `re = false` -/
+theorem numSysLinCfgF_false_eq_rp (s : EqSystem) (prec : List Bool) (small : ℝ) (rp : Bool) (redE redP : Reduced ℝ)
+    (y p : List ℝ) :
+    numSysLinCfgF s prec small false rp redE redP y p = numSysLinRpF s prec small rp redP y p := by
+  unfold numSysLinCfgF numSysLinRpF
+  by_cases hshape : shapeOk s y p = true <;> by_cases hempty : s.rxns.isEmpty = true <;>
+    simp only [hshape, hempty, Bool.not_true, Bool.not_false, Bool.false_eq_true, ↓reduceIte]
+  all_goals
+    cases stoichs s (nonPrecipRids s prec) with
+    | error e => rfl
+    | ok A =>
+      dsimp only
+      cases prodPow y A with
+      | error e => rfl
+      | ok qs => rfl
+
 /-! ## Row operations -/
 
 theorem mulVec_eq_zero_iff_of_isUnit_det {m : ℕ} (M : Matrix (Fin m) (Fin m) ℝ) (hM : IsUnit M.det)
